@@ -67,6 +67,8 @@ func FuzzAttrConstraint(f *testing.F) {
 		{"*", "anything,else"}, {"", ""}, {"", "a"}, {",", ""}, {"", ","}, {"a,b", "b,a"}, {"a,b,a", "b,a"},
 		{"a,b", "a,a"}, {"a,b", "a"}, {"a", "a,b"}, {"a", "a,a"}, {"*,a", "a"}, {"a,b,c", "c,b,a"}, {",,", ","},
 		{"build.example.com,release.example.com", "build.example.com,build.example.com"},
+		{"Build.example.com", "build.example.com"}, {"dev@Example.com,dev@example.com", "dev@example.com"},
+		{"BUILD.EXAMPLE.COM", "BUILD.EXAMPLE.COM"}, {"Café", "CafÉ"},
 		{"a,b,c", "a,b,c,c"}, {"a,b,c,d", "a,a,b,c"}, {"x", ""},
 	} {
 		f.Add(s[0], s[1])
@@ -133,6 +135,8 @@ func fuzzSetup() {
 		mk(root, lib.CertOpts{CN: "b", DNS: []string{"*"}, Emails: []string{"a", "b"}, Orgs: nil, URIs: []string{"ftp://a@b"}}, true)
 		mk(foreign, lib.CertOpts{CN: "a", DNS: []string{"a"}}, false)
 		mk(inter, lib.CertOpts{CN: "a", DNS: []string{"a"}, NotBefore: pastFrom, NotAfter: pastTo}, false)
+		// mixed-case spellings: letter case is significant in every attribute
+		mk(root, lib.CertOpts{CN: "Builder", DNS: []string{"Build.Example.com"}, Emails: []string{"Dev@Example.com"}, Orgs: []string{"Café"}, URIs: []string{"https://Host.example/P"}}, true)
 	})
 }
 
@@ -162,6 +166,10 @@ func FuzzConstraintCheck(f *testing.F) {
 		{"\x03", "b", "*", "a,b", "", "ftp://a@b", "R0,R1,R1"},
 		{"\x04", "a", "a", "", "", "", "*"},
 		{"\x05", "a", "a", "", "", "", "*"},
+		{"\x06", "Builder", "Build.Example.com", "Dev@Example.com", "Café", "https://Host.example/P", "*"},
+		{"\x06", "Builder", "build.example.com", "Dev@Example.com", "Café", "https://Host.example/P", "*"},
+		{"\x06", "Builder", "Build.Example.com", "Dev@example.com", "Café", "https://Host.example/P", "*"},
+		{"\x06", "*", "Build.Example.com,build.example.com", "*", "CAFÉ", "*", "R0,R1"},
 	} {
 		f.Add([]byte(s[0])[0], s[1], s[2], s[3], s[4], s[5], s[6])
 	}
